@@ -73,6 +73,7 @@ type vbroker struct {
 	deliveries []int // tags, in order
 	delivConn  []int
 	connects   []refPacket
+	spLog      []bool // per connection: CONNACK said session present
 	lastTagOf  []int // per connection: id -> tag is looked up from attempts
 	events     bool
 	silentAll  bool // broker stops answering PINGREQ (C13)
@@ -301,6 +302,10 @@ func (b *vbroker) process(c *vconn, p refPacket, tag int, fault int) (answer []b
 			sp = 1
 		}
 		b.hasSession = !clean
+		for len(b.spLog) <= c.id {
+			b.spLog = append(b.spLog, false)
+		}
+		b.spLog[c.id] = sp == 1
 		if fault == vfNone {
 			b.accepted[c.id] = true
 		}
